@@ -17,6 +17,7 @@
     outside the model (DESIGN.md).
 -/
 import LiteFSVerif.Proofs.Protocol
+import LiteFSVerif.Proofs.ApplyBytes
 
 namespace LiteFSVerif.C01
 open LiteFSVerif LiteFSVerif.Cks LiteFSVerif.Cluster LiteFSVerif.Protocol
@@ -87,5 +88,40 @@ theorem C01_converges_partial (H : I → Chk) (e0 : I) (n : Nat) (ops : List (Op
 example : (run (fun x : Nat => x.toUInt64) (init 0 2)
       [.commit 0 (· + 1), .send 0 1 0, .commit 0 (· + 10), .commit 1 (· + 20), .snap 0 1]).nodes.map (fun n => (n.pos.1, n.img)) =
     [(2, 11), (2, 11)] := by decide
+
+
+/-! ### engine level: what `ApplyLTXNoLock` does to the bytes of the database file -/
+
+/-- engine, byte level: after a successful apply of a transaction file with a non-zero size the
+    database file has exactly `commit` pages and every byte is the byte of the last page frame of
+    the file that covers it, or else the byte the database held before (zero past its old end) -/
+theorem C01_apply_bytes (s s' : Engine.Eng) (f : Engine.LTXFile) (fatal : Bool)
+    (h : Engine.applyLTX s f fatal = .ok s') (hc : f.commit > 0) :
+    ∃ d', s'.dbFile = some d' ∧ s'.pageSize = (if s.pageSize = 0 then f.pageSize else s.pageSize) ∧
+      s'.pageN = f.commit ∧ d'.size = f.commit * s'.pageSize ∧
+      ∀ i, i < d'.size → BA.getD d' i = Engine.byteAfterFrom s'.pageSize f.pages i (BA.getD (Engine.dbBytes s) i) :=
+  Engine.applyLTX_bytes s s' f fatal h hc
+
+/-- engine, byte level: two nodes whose database files agree byte for byte (reads past the end
+    count as zero) and that use the same page size hold *equal* database files after each applies
+    the same transaction file — replication is a function of (previous bytes, file) only -/
+theorem C01_apply_same_file_same_bytes (a a' b b' : Engine.Eng) (f : Engine.LTXFile) (fa fb : Bool)
+    (ha : Engine.applyLTX a f fa = .ok a') (hb : Engine.applyLTX b f fb = .ok b') (hc : f.commit > 0)
+    (hps : a.pageSize = b.pageSize)
+    (hbytes : ∀ i, BA.getD (Engine.dbBytes a) i = BA.getD (Engine.dbBytes b) i) :
+    a'.dbFile = b'.dbFile := by
+  obtain ⟨da, h1, h2, _, h4, h5⟩ := Engine.applyLTX_bytes a a' f fa ha hc
+  obtain ⟨db, g1, g2, _, g4, g5⟩ := Engine.applyLTX_bytes b b' f fb hb hc
+  have hpe : a'.pageSize = b'.pageSize := by rw [h2, g2, hps]
+  have hsz : da.size = db.size := by rw [h4, g4, hpe]
+  rw [h1, g1]
+  congr 1
+  apply ByteArray.ext_getElem hsz
+  intro i hi hi'
+  have e1 := h5 i hi
+  have e2 := g5 i hi'
+  rw [BA.getD_lt hi] at e1
+  rw [BA.getD_lt hi'] at e2
+  rw [e1, e2, hpe, hbytes i]
 
 end LiteFSVerif.C01
